@@ -130,3 +130,25 @@ Proof.
   - injection Hx as <-. rewrite remove_nil_map_Some in Hn. eapply c08_qualifier; eauto.
   - destruct (pt_required p); [discriminate|]. injection Hx as <-. contradiction.
 Qed.
+
+(* ---- the same at run level under the extended semantics (Model/FactoryX.v: Init methods that call back into the
+   factory, post-processors that short-circuit instantiation; Proofs/FactoryXWiring.v).  Additional side conditions:
+   no component has more than 100 points, the Init methods of the post-processor components issue no lookups, and
+   the holder is not listed as short-circuited (such a component is not populated at all). ------------------- *)
+From IocVerif Require Import Model.FactoryX Proofs.FactoryXLife Proofs.FactoryXNoPanic Proofs.FactoryXWiring.
+
+Theorem c08_wired_qualifier_extended : forall s x o st h c k p qs n,
+  small_points s -> run_xt repaired s x = (o, Ok st) ->
+  procs_pointless_b (normalise repaired s) = true -> procs_quiet_b (normalise repaired s) x = true ->
+  stages_ok_b (normalise repaired s) = true ->
+  alookup h (L1 (reg st)) <> None -> get_comp (s_pop s) h = Some c -> never_short x h -> nth_error (c_points c) k = Some p ->
+  pt_quals p = Some qs -> In n (map owner (field_of st h k)) -> qual_ok (s_pop s) qs n = true.
+Proof.
+  intros s x o st h c k p qs n Hsm H Hpp Hqt Hso Hpub Hc Hns Hk Hq Hin.
+  destruct (run_xt_wired s x o st Hsm H Hpp Hqt Hso h c k p Hpub Hc Hns Hk) as [y0 [Hx Hw]].
+  pose proof (wired_point_owners _ _ _ _ _ _ n Hw Hin) as Hn.
+  unfold further_one in Hx.
+  destruct (filter_dependencies repaired (s_pop s) h p (candidates (names_of (s_pop s)) (s_pop s) p)) as [l|] eqn:Ef.
+  - injection Hx as <-. rewrite remove_nil_map_Some in Hn. eapply c08_qualifier; eauto.
+  - destruct (pt_required p); [discriminate|]. injection Hx as <-. contradiction.
+Qed.
